@@ -11,6 +11,7 @@ The property oracle evaluates the documented systems at the returned solutions i
 from __future__ import annotations
 
 import json
+import os
 import math
 
 import numpy as np
@@ -579,6 +580,15 @@ def _model_atad(model, case, x):
             "lhs_model": dec(r["lhs_at_model_x"], cplx, shape), "acc": b2f(r["accuracy"])}
 
 
+def _atad_zero_weight(case):
+    """the class of the recorded finding `atad-zero-weight`"""
+    return case["W"] is not None and 0.0 in case["W"] and case["m"] < case["n"] and case["ddiag"]
+
+
+ATAD_ZW_WITNESS = {"kind": "atad", "m": 1, "n": 2, "k": 0, "cplx": True, "A": [[1.0, 0.0], [0.0, 1.0]], "D": [[1.0, 0.0], [1.0, 0.0]], "ddiag": True,
+                   "W": [0.0], "b": [[1.0, 0.0], [1.0, 0.0]], "cho": False, "lower": False, "xp": [[0.0, 0.0], [0.0, 0.0]]}
+
+
 def run_atad(ctx, model, case):
     m, n, k, cplx = case["m"], case["n"], case["k"], case["cplx"]
     im = _impl_atad(case)
@@ -598,6 +608,10 @@ def run_atad(ctx, model, case):
     _, _, _, b, _ = _atad_arrays(case)
     kk = 100 * (m + n) * max(1, k)
     bad = None
+    if _atad_zero_weight(case) and not np.all(np.isfinite(im["x"])):
+        # Woodbury path with a non-invertible W: 1/0 in a complex dtype is (inf + nan j) and the LU solve returns NaN
+        ctx.disagree("linsolve.atad.zero-weight-woodbury", case, tolist(im["x"]), tolist(mo["x"]), oracle=oracle_atad, known_id="atad-zero-weight")
+        return
     if im["gsize"] != mo["gsize"] or mo["woodbury"] != (im["gsize"] == m and m < n):
         bad = ("branch", im["gsize"], mo["gsize"])
     elif im["G"] is not None and np.all(np.isfinite(mo["G"])) and not vclose(im["G"], mo["G"], kk):
@@ -1073,7 +1087,10 @@ def correspond(ctx, model):
         if case.get("kind") in RUNNERS and not c.get("finding_only"):
             ctx.count("corpus")
             RUNNERS[case["kind"]](ctx, model, case)
+    only = os.environ.get("LINSOLVE_STREAMS")  # debugging aid (mutation trials): restrict the streams
     for kind, gen in GENS.items():
+        if only and kind not in only.split(","):
+            continue
         q, t = BUDGET[kind]
         for _ in range(ctx.n(q, t)):
             case = gen(ctx.rng)
@@ -1081,7 +1098,10 @@ def correspond(ctx, model):
 
 
 def findings(ctx, model):
-    pass  # no open finding for C14 (see the `fixed:` lines of known_findings.txt; their witnesses are corpus cases)
+    _setup()
+    if ctx.is_known("atad-zero-weight"):
+        r = oracle_atad(ATAD_ZW_WITNESS)
+        ctx.known_finding("atad-zero-weight", r is not None)
 
 
 def search(ctx, model, why):
@@ -1091,6 +1111,8 @@ def search(ctx, model, why):
         q, t = BUDGET[kind]
         for _ in range(max(10, ctx.n(q, t) // 4)):
             case = GENS[kind](ctx.rng)
+            if kind == "atad" and _atad_zero_weight(case) and ctx.is_known("atad-zero-weight"):
+                continue
             ctx.count(f"search:{kind}")
             r = orc(case)
             if r is not None:
